@@ -104,6 +104,10 @@ def rf_configs(draw, spf_cap=4096, boundary_p=0.6, force=None):
         cfg["uuid"] = "urn:uuid:" + "0123456789abcdef" * 19  # a long session identifier (313 characters)
     elif u_ == 1:
         cfg["uuid"] = "6ba7b810-9dad-11d1-80b4-00c04fd430c8"
+    elif u_ == 2:
+        cfg["uuid"] = ""  # an empty session identifier is a string like any other
+    elif u_ == 3:
+        cfg["uuid"] = "x"
     if _spf(n, d, F) > 8192:
         # very large files: keep one narrow real subchannel so that a case stays below a few MB
         cfg["nsub"] = 1
